@@ -22,6 +22,9 @@ SelfDirLink(st, c) == LET ra == ResolveA(st, c) IN ra.o = "ok" /\ IsLink(st.fs, 
 ResSame(c, rm, rs) == /\ rm.o # "panic" /\ rs.o # "panic"
                       /\ IsOk(rm) = IsOk(rs)
                       /\ (IsOk(rm) => ValSame(c, rm.v, rs.v))
+\* PAIRMODE=ref (C11's permission grid): each backend is held to the reference; a difference between the two that the reference
+\* leaves open (partial results of a failing multi-entry call) is C02's business, not an alarm here
+RefOnly == "PAIRMODE" \in DOMAIN IOEnv /\ IOEnv.PAIRMODE = "ref"
 Blame(okM, okS) == IF okM /\ okS THEN "reference-leaves-it-open" ELSE IF okM THEN "std-deviates" ELSE IF okS THEN "mem-deviates" ELSE "both-deviate"
 
 JudgePair(preM, preS, s, own) ==
@@ -39,7 +42,9 @@ JudgePair(preM, preS, s, own) ==
              IN IF rs /\ ts THEN << <<"ok", c.op, IF postS # preS \/ s.std.r.o # "ok" THEN "nt" ELSE "tr">> >>
                 ELSE LET jm == JudgeStepO(preM, [c |-> c, r |-> s.mem.r, same |-> s.mem.same, post |-> s.mem.post], MemOwn)
                          js == JudgeStepO(preS, [c |-> c, r |-> s.std.r, same |-> s.std.same, post |-> s.std.post], own)
-                     IN << <<"BAD", "pair", c.op, ArgClass(preS, ResolveA(preS, c)), IF c.op \in TwoPath THEN ArgClass(preS, ResolveB(preS, c)) ELSE "-",
+                     IN IF RefOnly /\ jm[1][1] # "BAD" /\ js[1][1] # "BAD" THEN << <<"unsettled", "pair", c.op, "both backends within the reference, different from each other">> >>
+                        ELSE
+                        << <<"BAD", "pair", c.op, ArgClass(preS, ResolveA(preS, c)), IF c.op \in TwoPath THEN ArgClass(preS, ResolveB(preS, c)) ELSE "-",
                               IF c.op \in TwoPath THEN RelClass(preS, c) ELSE "-", "mem:" \o s.mem.r.o, "std:" \o s.std.r.o,
                               IF ~rs /\ ~ts THEN "result+tree" ELSE IF ~rs THEN "result" ELSE "tree",
                               Blame(jm[1][1] # "BAD", js[1][1] # "BAD")>> >>
